@@ -58,6 +58,8 @@ assumed("A-sympy", "Symbol(n) equality is by name; free_symbols is the set of sy
                    "positional call binds in the order of L; str(e) is deterministic")
 assumed("A-cpython", "int()/float()/complex() on the token languages denote the literal's value (ValueError otherwise); str.format/str/repr per CPython; "
                      "dicts iterate in insertion order; copy.deepcopy returns an equal structure sharing no mutable cell; os.path.join/dirname POSIX semantics")
+assumed("A-antlr-walk", "ParseTreeWalker.walk(listener, tree) calls the listener's enter/exit handlers in depth-first order, enter before and exit after the "
+                        "children, left to right; its effect on the listener and the module tables is the fold of the handler contracts (lean/Walk.lean)")
 assumed("A-antlr-tree", "parse-tree accessors are pure observers of an immutable tree whose shape follows the grammar (getText, getChildren, typed child accessors, start/line/column)")
 
 
@@ -505,6 +507,25 @@ def _tolist(ex, e, obj, args, kwargs, p):
 @method("_asdict", "A-cpython")
 def _asdict(ex, e, obj, args, kwargs, p):
     return [(app("nt_asdict", asV(obj)), p)]
+
+
+@lib("_BlackbirdExprPrinter", "A-sympy")
+def _printer(ex, e, args, kwargs, p):
+    return [(app("NEW_BlackbirdExprPrinter"), p)]
+
+
+@method("doprint", "A-sympy")
+def _doprint(ex, e, obj, args, kwargs, p):
+    # StrPrinter.doprint with the two overrides of program._BlackbirdExprPrinter: trusted (cross-checked by the roundtrip witnesses)
+    return [(app("EXPR_TEXT", asV(args[0])), p)]
+
+
+@lib("getattr", "A-cpython")
+def _getattr(ex, e, args, kwargs, p):
+    if isinstance(args[1], PyC) and isinstance(args[1].v, str):
+        d = asV(args[2]) if len(args) > 2 else NONE
+        return [(app("py_getattr_" + args[1].v, asV(args[0]), d), p)]
+    raise Unsupported("getattr with a computed name", e)
 
 
 @lib("Command", "A-cpython")
